@@ -222,7 +222,11 @@ func (c19Prop) genOne(t *Tape) *c19Case {
 		c.Second = s
 		k := t.Draw(3)
 		if spec != "[OPTIONS]" {
-			spec = "[-q]... " + spec
+			if isArg || t.Draw(2) == 0 {
+				spec = "[-q]... " + spec
+			} else {
+				spec = spec + " [-q]..." // the first container's matcher then has to look past the occurrences of -q
+			}
 		}
 		var qargs []string
 		for i := 0; i < k; i++ {
@@ -309,7 +313,40 @@ func c19Prepare(c *c19Case, id int) *Prepared {
 		inst = Build(c.App, p)
 		return inst.Cli.Run(c.Argv)
 	}
-	return &Prepared{Proc: p, Body: body, Finish: func(st *Stats) *Violation { return c19Verdict(c, p, inst, st) }}
+	return &Prepared{Proc: p, Body: body, Finish: func(st *Stats) *Violation {
+		if v := c19Verdict(c, p, inst, st); v != nil {
+			return v
+		}
+		return c19Rerun(c, inst, st)
+	}}
+}
+
+// c19Rerun: history on one application object. A second invocation with the same command line drives the value
+// through the same protocol once more: Clear once iff present, Set of exactly the bound tokens - nothing else
+// (in particular nothing from the environment, which was consulted at declaration time).
+func c19Rerun(c *c19Case, inst *Instance, st *Stats) *Violation {
+	ps := c.Decl.Probe
+	if inst == nil || ps.FailAt > 0 || c.Decl.IsArg && false {
+		return nil
+	}
+	key := "r/" + c.Decl.Key()
+	before := len(inst.ProbeLog(key))
+	p2 := NewProc(20)
+	p2.Stream = c.Stream
+	inst.Proc = p2
+	RunProc(p2, func() error { return inst.Cli.Run(c.Argv) })
+	st.Count("reach.same_app_run_again")
+	log := inst.ProbeLog(key)
+	if len(log) < before {
+		return nil
+	}
+	got := callStrings(mutating(log[before:], true))
+	exp, _ := expectedProtocol(ps, c.Tokens)
+	if !equalStrings(got, exp) {
+		return &Violation{Clause: "rerun-protocol", Detail: "second invocation of the same application object: the value was not driven through the documented protocol again", Expected: exp,
+			Observed: map[string]interface{}{"run_phase_mutating_calls_of_the_second_invocation": got, "end": describeEnd(p2)}}
+	}
+	return nil
 }
 
 func c19Verdict(c *c19Case, p *Proc, inst *Instance, st *Stats) *Violation {
